@@ -48,10 +48,18 @@ SCHEMAS = {
 #article: #site/"article"/user/title <= #author
 ''',
 }
+SCHEMAS['2b'] = '''
+#KEY: "KEY"/_/_/_
+#site: "site"
+#root: #site/#KEY
+#other: "othersite"/#KEY
+#author: #site/"author"/user/#KEY <= #root | #other
+#article: #site/"article"/user/title <= #author
+'''
 LEVELS = {1: [], 2: ['author'], 3: ['admin', 'author'], 4: ['oper', 'admin', 'author']}
 
 
-@functools.lru_cache(maxsize=8)
+@functools.lru_cache(maxsize=16)
 def compiled(depth):
     from ndn.app_support.light_versec import compile_lvs
     return compile_lvs(SCHEMAS[depth])
@@ -123,8 +131,11 @@ class Pki:
         elif sb == 'digest':
             signer = sec.DigestSha256Signer()
         else:
-            signer = mk_signer(self.keys[sb], self.names[sb] if not spec.get('locator_override') else
-                               self.names[spec['locator_override']])
+            locator = self.names[sb]
+            if spec.get('alt_locator'):
+                # another certificate name of the same key (other issuer id) that nobody serves
+                locator = list(self.names[sb][:-2]) + [bytes(enc.Component.from_str('alt')), self.names[sb][-1]]
+            signer = mk_signer(self.keys[sb], locator)
         return bytes(enc.make_data(name, enc.MetaInfo(freshness_period=1000), b'article-' + spec['title'].encode(), signer=signer))
 
 
@@ -156,7 +167,7 @@ class ChainWorld(World):
         self.instances = {}
         self.harness_tasks = set()
         from ndn.app_support.light_versec import Checker, DEFAULT_USER_FNS
-        self.checker = Checker(compiled(scenario['depth']), DEFAULT_USER_FNS)
+        self.checker = Checker(compiled('2b' if scenario.get('two_roots') else scenario['depth']), DEFAULT_USER_FNS)
         self.apply_deviation_to_store()
         self.reset_default_storages()
 
@@ -417,14 +428,16 @@ class ChainWorld(World):
             e = insts.get(op['iid'])
             if e is None:
                 continue
-            bad_anchor = bool(op.get('anchor_forged')) or bool(op.get('anchor_is'))
+            bad_anchor = bool(op.get('anchor_forged')) or bool(op.get('anchor_is')) or \
+                (bool(self.scenario.get('two_roots')) and not op.get('bare'))
             if op.get('anchor_forged') and op['anchor_forged'] not in ('content', 'siginfo', 'sigvalue', 'name'):
                 bad_anchor = False
             if e.get('other'):
                 self.violate('C14', 'constructor-raised', 'lvs' if not op.get('bare') else 'cascade', e.get('where', '?'),
                              f'building validator {op["iid"]} raised {e.get("exc")} (only ValueError is documented)')
             elif bad_anchor and e['ok']:
-                why = 'is not properly self-signed' if op.get('anchor_forged') else 'does not match the schema\'s roots of trust'
+                why = 'is not properly self-signed' if op.get('anchor_forged') else \
+                    ('does not match the schema\'s roots of trust' + (' (it matches only one of two)' if self.scenario.get('two_roots') else ''))
                 self.violate('C14', 'bad-anchor-accepted', 'lvs' if not op.get('bare') else 'cascade',
                              'forged' if op.get('anchor_forged') else 'mismatch',
                              f'validator {op["iid"]} was built although its trust anchor {why}')
@@ -537,6 +550,7 @@ def generate(rng, seed, tier='quick'):
             op['bare'] = True
         ops.append(op)
         t += rng.choice([0, 1000])
+        prev_user = None
         for _ in range(rng.randint(1, 3)):
             vid += 1
             user = rng.choice(users)
@@ -550,6 +564,10 @@ def generate(rng, seed, tier='quick'):
                 pkt['signed_by'] = rng.choice(choices)
             elif z < 0.26:
                 pkt['name_user'] = 'mallory'
+            if _ > 0 and 'signed_by' not in pkt and rng.random() < 0.15 and depth >= 2:
+                pkt['alt_locator'] = True
+                pkt['user'] = prev_user
+            prev_user = pkt['user']
             v = {'at': t, 'op': 'validate', 'vid': vid, 'iid': iid, 'packet': pkt}
             if rng.random() < 0.1:
                 v['forge'] = rng.choice(['content', 'sigvalue', 'siginfo', 'name'])
@@ -560,7 +578,8 @@ def generate(rng, seed, tier='quick'):
             ops.append({'at': t, 'op': 'store', 'change': rng.choice(['withdraw', 'attacker', 'attacker']),
                         'label': rng.choice(chain_labels), 'by': rng.choice([['ec', 9], ['ec', 9], ['rsa', 5]])})
             t += 1000
-    return {'engine': 'trustchain', 'property': 'C14', 'seed': seed,
+    two_roots = depth == 2 and rng.random() < 0.2
+    return {'engine': 'trustchain', 'property': 'C14', 'seed': seed, 'two_roots': two_roots,
             'config': {'turn_cost_us': rng.choice([0, 0, 1]), 'wall_gran_us': 1000},
             'depth': depth, 'members': members, 'keys': keys, 'deviation': deviation, 'ops': ops,
             'fetch_delay_us': rng.choice([0, 100, 5000])}
@@ -577,6 +596,10 @@ def simplifications(sc):
         c['deviation'] = None
         yield c
     for i, op in enumerate(sc['ops']):
+        if op['op'] == 'validate' and op['packet'].get('alt_locator'):
+            c = copy.deepcopy(sc)
+            del c['ops'][i]['packet']['alt_locator']
+            yield c
         for k in ('forge', 'storage', 'anchor_forged', 'anchor_is', 'bare'):
             if k in op:
                 c = copy.deepcopy(sc)
